@@ -730,8 +730,13 @@ class Engine(object):
                 return int(rt) if rt.denominator == 1 else rt
             return math.sqrt(fr)
         r = self.app('sqrt', x)
-        self.assume(mkbool(r.t >= 0), 'sqrt>=0')
-        self.assume(mkbool(r.t * r.t == x.t), 'sqrt^2')
+        from . import poly
+        rid = r.t.get_id()
+        if rid not in poly.SQRT_DEFS:
+            poly.ratfun(r.t)                      # registers the atom
+            poly.SQRT_DEFS[rid] = poly.ratfun(x.t)
+            self.assume(mkbool(r.t >= 0), 'sqrt>=0')
+            self.assume(mkbool(r.t * r.t == x.t), 'sqrt^2')
         return r
 
     def fn_trig(self, which, x):
